@@ -60,11 +60,12 @@ theorem scheduled_not_held_after_put (s : State) (k t : Nat) (choice : List Entr
 
 /-! ## range_respected -/
 
-/-- With a distance range set, an advertisement that contributes anything but exactly one new key
-(the single-key fast path) queues or schedules only keys that were already queued or lie within the range. -/
+/-- With a distance range set, an advertisement of anything but exactly one record — whatever the number of NEW keys in
+it — queues or schedules only keys that were already queued or lie within the range. (The fast path, which skips the range
+test, is taken by single-record advertisements only: `addCore_fast_single`.) -/
 theorem range_respected (s : State) (h : Nat) (incoming locals : List (Nat × Nat)) (choice : List Entry)
     (r : Nat) (hr : s.range = some r)
-    (hmulti : (incoming.filter (admits dist s locals h)).length ≠ 1) :
+    (hmulti : incoming.length ≠ 1) :
     ∀ e, e ∈ (addKeys dist s h incoming locals choice).1.tbf ∨
          e ∈ (addKeys dist s h incoming locals choice).2.ret →
       hasKTH s.tbf e.key e.ty e.holder = true ∨ dist e.key ≤ r := by
@@ -80,30 +81,47 @@ theorem range_respected (s : State) (h : Nat) (incoming locals : List (Nat × Na
   rcases he with he | he
   · exact horigin e ((pTbf_sub _).subset ((nextKeys_tbf_sub dist _ X).subset he))
   · rcases List.mem_append.1 he with he | he
-    · obtain ⟨p, hp, _⟩ := addCore_fast dist he
-      exact absurd (by rw [show incoming.filter (admits dist s locals h) = [p] from hp]; rfl) hmulti
+    · exact absurd (addCore_fast_single dist (List.ne_nil_of_mem he)) hmulti
     · obtain ⟨⟨x, hx, hk, ht, hh⟩, _, _⟩ := nextKeys_ret_origin dist he
       rw [← hk, ← ht, ← hh]
       exact horigin x ((pTbf_sub _).subset hx)
 
 /-- The clause at full strength — "records taken from periodic MULTI-RECORD advertisements must also lie within its
 responsible distance": whatever the number of NEW keys in it, an advertisement of two or more records queues or
-schedules only keys that were already queued or lie within the range. -/
-def RangeRespectedMultiAdvert : Prop :=
+schedules only keys that were already queued or lie within the range. `single`: the shape of the fast-path condition
+(`true`: `total_incoming_keys == 1 && new_incoming_keys.len() == 1`, `false`: `new_incoming_keys.len() == 1` alone). -/
+def RangeRespectedMultiAdvertWith (single : Bool) : Prop :=
   ∀ (dist : Nat → Nat) (s : State) (h : Nat) (incoming locals : List (Nat × Nat)) (choice : List Entry) (r : Nat),
     s.range = some r → 2 ≤ incoming.length →
-    (addKeys dist s h incoming locals choice).2.illegal = false →
-    ∀ e, e ∈ (addKeys dist s h incoming locals choice).1.tbf ∨ e ∈ (addKeys dist s h incoming locals choice).2.ret →
+    (addKeysWith single dist s h incoming locals choice).2.illegal = false →
+    ∀ e, e ∈ (addKeysWith single dist s h incoming locals choice).1.tbf ∨
+         e ∈ (addKeysWith single dist s h incoming locals choice).2.ret →
       hasKTH s.tbf e.key e.ty e.holder = true ∨ dist e.key ≤ r
 
-/-- It is false of the code (known finding K-x-single-new-skips-range): the fast path is taken when exactly one key of
-the list is NEW — the steady state of periodic replication, a list with one record the node lacks — and skips the range
-test. Range 5, keys 1 and 2 held, the list [1, 2, 50]: key 50 at distance 50 is fetched at once, and the choice is legal. -/
-theorem single_new_key_of_multi_advert_skips_range_witness : ¬ RangeRespectedMultiAdvert := by
+/-- the clause about the code as it is (the generated flag) -/
+def RangeRespectedMultiAdvert : Prop := RangeRespectedMultiAdvertWith fastPathNeedsSingleAdvert
+
+/-- **The range clause holds at full strength** (repaired: K-x-single-new-skips-range). -/
+theorem range_respected_multi_advert : RangeRespectedMultiAdvert := by
+  intro dist s h incoming locals choice r hr hlen _ e he
+  exact range_respected dist s h incoming locals choice r hr (by omega) e he
+
+/-- It was false of the OLD shape of the fast-path condition (`new_incoming_keys.len() == 1`, counted after the held keys
+are filtered out): the fast path was taken when exactly one key of the list is NEW — the steady state of periodic
+replication, a list with one record the node lacks — and skips the range test. Range 5, keys 1 and 2 held, the list
+[1, 2, 50]: key 50 at distance 50 is fetched at once, and the choice is legal. Reverting the repair in
+`replication_fetcher.rs` turns `fastPathNeedsSingleAdvert` to `false`, i.e. `addKeys` into this machine. -/
+theorem single_new_key_of_multi_advert_skips_range_witness : ¬ RangeRespectedMultiAdvertWith false := by
   intro hall
   have h := hall (fun k => k) ({ range := some 5 } : State) 7 [(1, 0), (2, 0), (50, 0)] [(1, 0), (2, 0)]
     [⟨50, 0, 7, fetchTimeout⟩] 5 rfl (by decide) (by decide) ⟨50, 0, 7, fetchTimeout⟩ (Or.inr (by decide))
   revert h
+  decide
+
+/-- the same list on the repaired machine: key 50 is neither fetched nor queued -/
+example : (addKeys (fun k => k) ({ range := some 5 } : State) 7 [(1, 0), (2, 0), (50, 0)] [(1, 0), (2, 0)] []).2.ret = [] ∧
+    (addKeys (fun k => k) ({ range := some 5 } : State) 7 [(1, 0), (2, 0), (50, 0)] [(1, 0), (2, 0)] []).2.illegal = false ∧
+    (addKeys (fun k => k) ({ range := some 5 } : State) 7 [(1, 0), (2, 0), (50, 0)] [(1, 0), (2, 0)] []).1.tbf = [] := by
   decide
 
 /-! ## full_respected -/
@@ -458,7 +476,7 @@ theorem new_version_fetched (s : State) (h k t : Nat) (locals : List (Nat × Nat
     obtain rfl : (k, t) = p := by simpa using hp
     rw [hc]
     exact ⟨fastEntry s h (k, t), List.mem_append_left _ (List.mem_singleton.2 rfl), rfl, rfl, rfl⟩
-  · rw [hnew] at hlen; exact absurd rfl hlen
+  · rw [hnew] at hlen; rcases hlen with hlen | hlen <;> exact absurd rfl hlen
 
 /-! ## progress -/
 
@@ -516,7 +534,7 @@ theorem progress_partial (s : State) (choice : List Entry) (e : Entry)
 after the call, queued for that holder or in flight — unless the holder is reported as timed out by this call. -/
 theorem multi_key_takeup (s : State) (h : Nat) (incoming locals : List (Nat × Nat)) (choice : List Entry)
     (p : Nat × Nat) (hp : p ∈ incoming.filter (admits dist s locals h))
-    (hmulti : (incoming.filter (admits dist s locals h)).length ≠ 1)
+    (hmulti : (incoming.filter (admits dist s locals h)).length ≠ 1 ∨ incoming.length ≠ 1)
     (hr : ∀ r, s.range = some r → dist p.1 ≤ r)
     (hresp : h ∉ (addKeys dist s h incoming locals choice).2.failed) :
     hasKTH (addKeys dist s h incoming locals choice).1.tbf p.1 p.2 h = true ∨
@@ -526,9 +544,15 @@ theorem multi_key_takeup (s : State) (h : Nat) (incoming locals : List (Nat × N
   have hf := (nextKeys_fields dist (addCore dist s h incoming locals).1 X).2.2.2
   -- the key is queued before the final `next_keys_to_fetch`
   have hq : hasKTH (addCore dist s h incoming locals).1.tbf p.1 p.2 h = true := by
-    rcases addCore_cases dist s h incoming locals with ⟨q, hq, _, _⟩ | ⟨q, hq, _, _⟩ | ⟨_, hc⟩
-    · exact absurd (by rw [show incoming.filter (admits dist s locals h) = [q] from hq]; rfl) hmulti
-    · exact absurd (by rw [show incoming.filter (admits dist s locals h) = [q] from hq]; rfl) hmulti
+    rcases addCore_cases' dist s h incoming locals with ⟨q, hq, _, _⟩ | ⟨q, hq, _, _⟩ | ⟨_, hc⟩
+    · obtain ⟨h1, h2⟩ := (fastKey_some_iff _ _ _).1 hq
+      rcases hmulti with hm | hm
+      · exact absurd (by rw [show incoming.filter (admits dist s locals h) = [q] from h1]; rfl) hm
+      · exact absurd h2 hm
+    · obtain ⟨h1, h2⟩ := (fastKey_some_iff _ _ _).1 hq
+      rcases hmulti with hm | hm
+      · exact absurd (by rw [show incoming.filter (admits dist s locals h) = [q] from h1]; rfl) hm
+      · exact absurd h2 hm
     · rw [hc]
       apply insertPending_has
       unfold new3
@@ -1129,6 +1153,7 @@ example : Reachable (fun k => k) (run (fun k => k) State.init [.age 3]) := ⟨[.
 #print axioms SafeNet.Props.C08.scheduled_not_held
 #print axioms SafeNet.Props.C08.scheduled_not_held_after_put
 #print axioms SafeNet.Props.C08.range_respected
+#print axioms SafeNet.Props.C08.range_respected_multi_advert
 #print axioms SafeNet.Props.C08.single_new_key_of_multi_advert_skips_range_witness
 #print axioms SafeNet.Props.C08.full_respected
 #print axioms SafeNet.Props.C08.full_bound_shrinks
